@@ -178,7 +178,14 @@ def run(ctx):
         if t[0] == "await":
             return result_sources(t[1], depth + 1)
         if call_is(t, "asyncio.gather"):
-            return ["gather"]
+            # ... over every recorded task: gather(*<protocol>.tasks), possibly through a copy of the set
+            if len(t[2]) == 1 and t[2][0][0] == "starred":
+                a_ = strip(t[2][0][1])
+                while call_is(a_, "list", "tuple", "set", "frozenset", "sorted") and len(a_[2]) == 1:
+                    a_ = strip(a_[2][0])
+                if a_[0] == "attr" and a_[2] == "tasks":
+                    return ["gather"]
+            return [f"gather over {show(t)[:60]}"]
         if t[0] == "ite":
             return sorted(set(result_sources(t[2], depth + 1) + result_sources(t[3], depth + 1)))
         return [show(t)[:60]]
@@ -190,8 +197,8 @@ def run(ctx):
                file=d.module.rel, node=n_, detail={"sources": srcs_},
                fail=f"discover() builds its result from {srcs_}: devices from another source than the one gather can be reported twice")
     removers = [(f.qual, n) for f in prog.all_functions() if f.module.name == "msmart.discover" for n in ast.walk(f.node)
-                if isinstance(n, ast.Call) and isinstance(n.func, ast.Attribute) and n.func.attr in ("discard", "remove", "pop", "clear")
-                and isinstance(n.func.value, ast.Attribute) and n.func.value.attr == "tasks"]
+                if isinstance(n, ast.Attribute) and n.attr in ("discard", "remove", "pop", "clear", "difference_update", "intersection_update", "symmetric_difference_update")
+                and isinstance(n.value, ast.Attribute) and n.value.attr == "tasks"]      # called, or handed out as a callback
     ctx.ob("C18.a", DG, not removers, "no task is taken out of the task set before it was gathered", func=DG, file=file, construct="self.tasks removals",
            node=removers[0][1] if removers else None, fail="tasks are removed from the task set outside discover(): their devices are lost or reported through another path")
     for _pc, _t, _n, rst in s.returns:
